@@ -77,7 +77,7 @@ class x12xml_simple(x12xml):
                 if ele_data.is_empty():
                     pass
                 elif ele_data.is_composite():
-                    (xname, attrib) = self._get_comp_info(seg_node_id)
+                    (xname, attrib) = self._get_comp_info('%s%02i' % (seg_node.id, i + 1))
                     self.writer.push(xname, attrib)
                     for j in range(len(ele_data)):
                         (xname, attrib) = self._get_subele_info('%s-%02i' % (ele_id, j + 1))
@@ -90,7 +90,7 @@ class x12xml_simple(x12xml):
             if child_node.usage == 'N' or seg_data.elements[i].is_empty():
                 pass  # Do not try to ouput for invalid or empty elements
             elif child_node.is_composite():
-                (xname, attrib) = self._get_comp_info(seg_node_id)
+                (xname, attrib) = self._get_comp_info('%s%02i' % (seg_node.id, i + 1))
                 self.writer.push(xname, attrib)
                 comp_data = seg_data.elements[i]
                 for j in range(len(comp_data)):
